@@ -98,6 +98,20 @@ theorem Rebal.bst {S : α} {t u : Tree α} (h : Rebal S t u) (hb : BST t) : BST 
   | rotR p _ ih => exact ih (atPath_BST (rotR_toList S) (fun _ => rotR_BST S) p hb)
   | colour f _ ih => exact ih (recolour_BST f [] hb)
 
+theorem Rebal.augLeQ {S : α} {t u : Tree α} (h : Rebal S t u) (ha : AugLeQ S t) : AugLeQ S u := by
+  induction h with
+  | refl t => exact ha
+  | rotL p _ ih => exact ih (atPath_AugLeQ S (rotL_toList S) (fun _ => rotL_AugLe S) (fun _ => rotL_AugLeQ S) p ha)
+  | rotR p _ ih => exact ih (atPath_AugLeQ S (rotR_toList S) (fun _ => rotR_AugLe S) (fun _ => rotR_AugLeQ S) p ha)
+  | colour f _ ih => exact ih (recolour_AugLeQ S f [] ha)
+
+theorem Rebal.exact {S : α} {t u : Tree α} (h : Rebal S t u) (ha : Exact S t) : Exact S u := by
+  induction h with
+  | refl t => exact ha
+  | rotL p _ ih => exact ih (atPath_Exact S (rotL_toList S) (fun _ => rotL_Exact S) p ha)
+  | rotR p _ ih => exact ih (atPath_Exact S (rotR_toList S) (fun _ => rotR_Exact S) p ha)
+  | colour f _ ih => exact ih (recolour_Exact S f [] ha)
+
 theorem Rebal.augLe {S : α} {t u : Tree α} (h : Rebal S t u) (ha : AugLe S t) : AugLe S u := by
   induction h with
   | refl t => exact ha
